@@ -379,7 +379,7 @@ class ODF2MoinMoin(object):
         text = self.textToString(node)
 
         if not text.strip():
-            return ''  # don't apply styles to white space
+            return text  # don't apply styles to white space
 
         styleName = node.getAttribute("text:style-name")
         style = self.textStyles.get(styleName, TextProps())
